@@ -64,6 +64,11 @@ func vAssertRestartInvariant(st *storage, a *vAbsLog, tag string) {
 	vAssert(st.lastLogIndex == a.last() || (a.last() == a.prev && st.lastLogIndex == st.snaps.index), tag+"-last-index-is-the-logs-or-the-snapshots")
 	// the next entry a leader sends goes to lastLogIndex+1: the log must be able to take it there
 	vAssert(a.last() == st.lastLogIndex, tag+"-log-contiguous-with-snapshot/log-behind-snapshot")
+	// where the log still holds the snapshot's last index it agrees with the snapshot there (otherwise everything the
+	// log holds up to that index contradicts committed history, and a later leadership of this node would replicate it)
+	if a.prev < st.snaps.index && st.snaps.index <= a.last() {
+		vAssert(vTermAt(a, a.base, st.snaps.index) == st.snaps.term, tag+"-log-agrees-with-snapshot-at-its-index")
+	}
 }
 
 //verif:check C10 stubs=env,valuefile,abslog,snapfs,restart reach=crash,restarted,end desc="crash at every storage-operation boundary inside onInstallSnapRequest, then openStorage: opens, term not older, log contiguous with the latest snapshot" bounds="follower log of 1 entry, crash at any storage-operation boundary or none; all 64-bit values"
